@@ -5,7 +5,7 @@
    Coordinates are Z scaled by 16, squared distances scaled by 256 (Model/ContGeom.v). *)
 From Coq Require Import ZArith List Bool.
 From Mesa Require Import Common.ListX Generated.Tables Model.ContGeom Model.ContLegacy Model.ContExp
-  Proofs.ContGeomProofs Proofs.ContExpProofs Proofs.ContLegacyProofs.
+  Proofs.ContGeomProofs Proofs.ContExpProofs Proofs.ContLegacyProofs Proofs.ContBridge.
 Import ListNotations.
 Open Scope Z_scope.
 
@@ -310,30 +310,84 @@ Theorem C18_continuous_continue_exp : forall c ops o s' e rest,
 Proof. exact exp_continue. Qed.
 Print Assumptions C18_continuous_continue_exp.
 
-(* ================= T1: the source constructs the models transcribe ================= *)
+(* ================= T1 at code level: the source functions, translated ================= *)
 
-(* re-extracted from the working tree on every run (harness/tables/continuous.py): the comparison operators of
-   legacy out_of_bounds (x < min or x >= max, per axis) and of experimental in_bounds (>= lo & <= hi), the growth
-   rule of the position array (fraction 1/5, at least 1 row, taken when shape[0] <= index), the kth argument of
-   argpartition (k - 1), the three radius comparisons (dists <= radius**2, dists[x] > 0, distances <= radius), the
-   shape of the two torus corrections (min + (x - min) % size with each axis' own min and size; in bounds -> unchanged,
-   bounded -> raise, torus -> wrap) and of _remove_agent (re-index active_agents[index:] by -1, copy rows
-   [index+1 : n] onto [index : n-1], then n -= 1) are the ones oob_half, in_closed, growth / add_agent, the guard of
-   EKNearest, neighbors_of, in_radius, wrap / torus_adj and remove_agent encode *)
-Theorem C10_source_shapes :
-  gen_cont_legacy_oob = [KLt; KGe; KLt; KGe] /\ gen_cont_exp_in_bounds = [KGe; KLe] /\
-  gen_cont_exp_growth = ((1, 5, 1), KLe) /\ gen_cont_exp_kth_offset = -1 /\
-  gen_cont_radius_ops = [KLe; KGt; KLe] /\
-  gen_cont_wrap = ([(0, 1, 1); (1, 1, 1)], 1) /\ gen_cont_exp_remove = ((0, -1, 1, 0), 0).
-Proof. exact (conj eq_refl (conj eq_refl (conj eq_refl (conj eq_refl (conj eq_refl (conj eq_refl eq_refl)))))). Qed.
-Print Assumptions C10_source_shapes.
+(* harness/tables/continuous_code.py TRANSLATES (harness/pyexpr.py, per-axis reading of the NumPy expressions) on every
+   run: legacy out_of_bounds, torus_adj, get_distance (read squared), get_heading, the delta / squared-norm / selection
+   expressions of get_neighbors; experimental in_bounds, torus_correct, the growth rule and its guard, the re-indexing
+   expression and the compaction slice bounds of _remove_agent, calculate_difference_vector, the torus branch of
+   calculate_distances, the radius comparison, the argpartition index; the guards of the position setter.
+   The remaining statements (dictionaries, agent.pos, cache invalidation, vstack, cdist, compress, views) are checked
+   verbatim, statement for statement, in the order the models transcribe them: *)
+Theorem C10_source_skeletons : gen_cs_legacy_skeleton_ok = true /\ gen_cs_exp_skeleton_ok = true.
+Proof. exact (conj eq_refl eq_refl). Qed.
+Print Assumptions C10_source_skeletons.
 
-(* the modelled growth is the extracted rule: round(n/5) = (2n+5)/10 rows, but at least the extracted minimum,
-   hence at least one row - what the invariant n <= capacity needs *)
-Theorem C10_growth_positive : forall n,
-  growth n = Nat.max ((2 * n + 5) / 10) (Z.to_nat (snd (fst gen_cont_exp_growth))) /\ (1 <= growth n)%nat.
-Proof. exact growth_spec. Qed.
-Print Assumptions C10_growth_positive.
+(* every translated function IS the model function the theorems above are about (15 bridges) *)
+Theorem C10_source_code_is_model : source_code_is_model_statement.
+Proof. exact source_code_is_model. Qed.
+Print Assumptions C10_source_code_is_model.
+
+(* the translated growth rule adds at least one row whenever it is taken - what the invariant n <= capacity needs
+   (false for the unrepaired  int(round(0.2 * n))  at n = 1, 2) *)
+Theorem C10_growth_positive_of_source : forall n, 1 <= gen_cs_growth (Z.of_nat n).
+Proof. exact growth_positive_of_source. Qed.
+Print Assumptions C10_growth_positive_of_source.
+
+(* _remove_agent: the model's compaction is the slice copy with the translated bounds (equal lengths), n decremented *)
+Theorem C10_source_compaction : forall s a index s',
+  aget a (e_a2i s) = Some index -> (index < e_n s)%nat -> remove_agent s a = Ok s' ->
+  e_store s' = slice_copy (gen_cs_compact (Z.of_nat index) (Z.of_nat (e_n s))) (e_store s) /\
+  (let '((a', b'), (c', d')) := gen_cs_compact (Z.of_nat index) (Z.of_nat (e_n s)) in b' - a' = d' - c') /\
+  e_n s' = (e_n s - 1)%nat.
+Proof. exact compact_bridge. Qed.
+Print Assumptions C10_source_compaction.
+
+(* ... so the headline statements hold of the translated source code itself.
+   get_neighbors (translated delta, squared norm, selection) returns exactly the agents whose translated get_distance
+   (squared) from the query point is at most radius^2, an agent at distance 0 only on request: *)
+Theorem C10_legacy_radius_exact_of_source : forall x0 x1 y0 y1 t cache q r ic a,
+  In a (gen_neighbors x0 x1 y0 y1 t cache q r ic) <->
+  exists p, In (a, p) cache /\ gen_cs_distance2 x0 x1 y0 y1 t p q <= r * r /\
+            (ic = true \/ 0 < gen_cs_distance2 x0 x1 y0 y1 t p q).
+Proof. exact neighbors_exact_of_source. Qed.
+Print Assumptions C10_legacy_radius_exact_of_source.
+
+(* the translated get_heading has the (squared) length of the translated get_distance *)
+Theorem C10_heading_norm_of_source : forall x0 x1 y0 y1 t a1 b1 a2 b2,
+  x0 < x1 -> y0 < y1 ->
+  (t = true -> x0 <= a1 <= x1 /\ x0 <= a2 <= x1 /\ y0 <= b1 <= y1 /\ y0 <= b2 <= y1) ->
+  gen_cs_heading_axis (x1 - x0) t a1 a2 * gen_cs_heading_axis (x1 - x0) t a1 a2
+  + gen_cs_heading_axis (y1 - y0) t b1 b2 * gen_cs_heading_axis (y1 - y0) t b1 b2
+  = gen_cs_distance2 x0 x1 y0 y1 t (a1, b1) (a2, b2).
+Proof. exact heading_norm_of_source. Qed.
+Print Assumptions C10_heading_norm_of_source.
+
+(* whatever the translated torus_adj returns passes the translated out_of_bounds test; whatever the translated
+   position setter stores passes the translated in_bounds *)
+Theorem C10_torus_in_bounds_of_source : forall x0 x1 y0 y1 t pos p',
+  x0 < x1 -> y0 < y1 ->
+  gen_cs_torus_adj x0 x1 y0 y1 t pos = Some p' -> gen_cs_out_of_bounds x0 x1 y0 y1 p' = false.
+Proof. exact torus_adj_in_bounds_of_source. Qed.
+Print Assumptions C10_torus_in_bounds_of_source.
+
+Theorem C10_setter_in_bounds_of_source : forall bs t p v,
+  bounds_ok bs = true ->
+  gen_cs_setter t (gen_in_bounds bs p) p (gen_torus_correct bs p) = Some v -> gen_in_bounds bs v = true.
+Proof. exact setter_stores_in_bounds_of_source. Qed.
+Print Assumptions C10_setter_in_bounds_of_source.
+
+(* the translated code computes: a torus of x in [-1, 3), y in [0, 4) (scaled by 16) *)
+Example C10_source_example :
+  gen_cs_torus_adj (-16) 48 0 64 true (48, -1) = Some (-16, 63) /\
+  gen_cs_torus_adj (-16) 48 0 64 false (48, -1) = None /\
+  gen_cs_distance2 (-16) 48 0 64 true (-8, 8) (40, 56) = 512 /\
+  gen_cs_heading_axis 64 true (-8) 40 = -16 /\
+  gen_neighbors (-16) 48 0 64 true [(1, (12, 28)); (2, (-16, 0)); (3, (40, 60))] (44, 0) 8 false = [2; 3] /\
+  gen_cs_growth 1 = 1 /\ gen_cs_growth 101 = 20 /\ gen_cs_kth 3 = (2, 3) /\
+  gen_cs_compact 1 4 = ((1, 3), (2, 4)) /\ slice_copy (gen_cs_compact 1 4) [10; 11; 12; 13; 14] = [10; 12; 13; 13; 14] /\
+  gen_cs_setter true false [17; 0] [1; 0] = Some [1; 0] /\ gen_cs_setter false false [17; 0] [1; 0] = None.
+Proof. vm_compute. repeat split; reflexivity. Qed.
 
 (* ================= non-vacuity ================= *)
 Definition ex_cfg (cap : nat) : ecfg := {| ec_bounds := [(-16, 48); (0, 64)]; ec_torus := true; ec_cap := cap |}.
